@@ -731,6 +731,17 @@ func collapseNaN(s string) string {
 	}
 }
 
+var math2 = map[string]bool{"atan2": true, "copysign": true, "drem": true, "fdim": true, "fmax": true, "fmin": true, "fmod": true,
+	"hypot": true, "jn": true, "nextafter": true, "nexttoward": true, "remainder": true, "ldexp": true, "scalb": true, "scalbln": true,
+	"yn": true, "pow": true}
+
+func gojqMathKind(name string) string {
+	if math2[name] {
+		return "math2"
+	}
+	return ""
+}
+
 func runC03(c *Ctx) {
 	u := universe()
 	var all, core []any
@@ -852,6 +863,16 @@ func runC03(c *Ctx) {
 					continue
 				}
 				_ = isOp
+				if !thorough && strings.HasPrefix(gojqMathKind(name), "math") { // libm dispatch: numbers of the core + one of each other type
+					as = nil
+					for _, v := range core {
+						switch v.(type) {
+						case int, *big.Int, float64, json.Number:
+							as = append(as, v)
+						}
+					}
+					as = append(as, nil, true, "a", arr(), obj())
+				}
 				for _, a := range as {
 					for _, b := range as {
 						r.call(n, nil, []any{a, b})
